@@ -472,13 +472,9 @@ class StreamProcessor(Entity):
                             w.records.append(value)
                             found = True
                             break
-                        # For UPDATE policy, allow adding to emitted windows
-                        if (
-                            self._late_event_policy == LateEventPolicy.UPDATE
-                            and w.start == w_start
-                            and w.end == w_end
-                            and w.emitted
-                        ):
+                        # An accepted event (within the allowed lateness, or late
+                        # under UPDATE) for an emitted window updates that window
+                        if w.start == w_start and w.end == w_end and w.emitted:
                             w.records.append(value)
                             w.emitted = False  # Re-open for re-emission
                             found = True
